@@ -65,7 +65,7 @@ def main():
     props_file = f"Props/{pid}.v"
     closure = common.deps_closure(props_file)
     # the executable models the correspondence evaluates under vm_compute are always (re)built together with the property's theorems
-    models = [f"Model/{m}.vo" for m in ("TreeCheck", "Hist", "Select", "NBC", "Far", "Report", "Bounds", "Problem", "Ops") if os.path.exists(os.path.join(common.COQ, "Model", m + ".v"))]
+    models = [f"Model/{m}.vo" for m in ("TreeCheck", "DriverCheck", "Hist", "Select", "NBC", "Far", "Report", "Bounds", "Problem", "Ops") if os.path.exists(os.path.join(common.COQ, "Model", m + ".v"))]
     build_ok, build_log = common.coq_build([f"Props/{pid}.vo"] + models + getattr(prop, "EXTRA_TARGETS", []))
     gate_hits = common.gate(closure)
     ass_ok, assumptions, ass_log = (False, [], "")
@@ -75,8 +75,9 @@ def main():
     obligations, discharged, ob_names = common.count_obligations(closure)
     broken = []
     my_fes = getattr(prop, "FRONT_ENDS", [])
+    fe_filter = getattr(prop, "FRONT_END_FILTER", {})
     for fe, msg in tr_errors.items():
-        if fe in my_fes:
+        if fe in my_fes and (fe not in fe_filter or fe_filter[fe] in msg):
             broken.append(f"translator[{fe}]: {msg}")
     if not build_ok:
         errs = [ln for ln in build_log.splitlines() if "Error" in ln or ln.startswith("File ") or "rror:" in ln]
